@@ -70,7 +70,7 @@ Proof.
   - cbn. now rewrite app_nil_r.
   - assert (Hq' : quiet g t) by (intros c' Hc'; apply Hq; right; exact Hc').
     pose proof (Hq c (or_introl eq_refl)) as Hc.
-    destruct c as [b0|j key|j e|k|k|tg d|tg|n]; cbn [buf_cmds nexts_of flat_map] in *;
+    destruct c as [b0|j key|j e|k|k|tg d|tg|n|k]; cbn [buf_cmds nexts_of flat_map] in *;
       fold (nexts_of g t) in *.
     + apply IH; assumption.
     + specialize (IH (open ++ [(j, [])]) od b Hq').
@@ -96,6 +96,7 @@ Proof.
     + specialize (IH open od b Hq' Hg). destruct (bc keep open od t) as [[o out] f]. cbn [fst snd] in *. auto.
     + specialize (IH open od b Hq' Hg). destruct (bc keep open od t) as [[o out] f]. cbn [fst snd] in *. auto.
     + specialize (IH open od b Hq' Hg). destruct (bc keep open od t) as [[o out] f]. cbn [fst snd] in *. auto.
+    + specialize (IH open od b Hq' Hg). destruct (bc keep open od t) as [[o out] f]. cbn [fst snd] in *. auto.
 Qed.
 
 (* processing is sequential *)
@@ -109,7 +110,7 @@ Lemma buf_cmds_app keep (a : list (cmd A B0)) : forall open od b,
 Proof.
   induction a as [|c t IH]; intros open od b.
   - cbn. destruct (bc keep open od b) as [[o out] f]. reflexivity.
-  - destruct c as [b0|j key|j e|k|k|tg d|tg|n]; cbn [app buf_cmds].
+  - destruct c as [b0|j key|j e|k|k|tg d|tg|n|k]; cbn [app buf_cmds].
     + apply IH.
     + rewrite IH. destruct (bc keep (open ++ [(j, [])]) od t) as [[o out] f]. cbn [fst snd].
       destruct f; try reflexivity. destruct (bc keep o od b) as [[o2 out2] f2]. reflexivity.
@@ -121,6 +122,8 @@ Proof.
         destruct (od && match buf_del j open with [] => true | _ => false end); [reflexivity|].
         rewrite IH. destruct (bc keep (buf_del j open) od t) as [[o out] f]. cbn [fst snd].
         destruct f; try reflexivity. destruct (bc keep o od b) as [[o2 out2] f2]. cbn. now rewrite app_assoc.
+    + rewrite IH. destruct (bc keep open od t) as [[o out] f]. cbn [fst snd].
+      destruct f; try reflexivity. destruct (bc keep o od b) as [[o2 out2] f2]. reflexivity.
     + rewrite IH. destruct (bc keep open od t) as [[o out] f]. cbn [fst snd].
       destruct f; try reflexivity. destruct (bc keep o od b) as [[o2 out2] f2]. reflexivity.
     + rewrite IH. destruct (bc keep open od t) as [[o out] f]. cbn [fst snd].
